@@ -18,3 +18,4 @@ open Neutrino.BM
 #print axioms C01_ctx_resolves_own_branch
 #print axioms C01_ctx_connect_loop
 #print axioms ctx_reorg_small_window_counterexample
+#print axioms C01_next_checkpoint_every_event
